@@ -18,6 +18,13 @@ NULLTYPE = -1
 NULLREF = np.array([NULLVALUE, NULLTYPE], dtype="int64")
 
 
+def _axis_order(cls):
+    order = getattr(cls, "_order", None)
+    if order is None or isinstance(order, str):
+        return order
+    return tuple(order)
+
+
 # Ref is a like a scalar
 class MetaRef(type):
     def __getitem__(cls, reftype):
@@ -52,6 +59,8 @@ class Ref(metaclass=MetaRef):
             refoffset = NULLVALUE  # NULL value
         elif (
             value.__class__.__name__ == self._reftype.__name__  # same type
+            # array classes differing only in axis order share one name
+            and _axis_order(value.__class__) == _axis_order(self._reftype)
             and value._buffer is buffer
         ):
             refoffset = value._offset - offset
